@@ -90,12 +90,12 @@ func newChunkExporter(exporter Exporter, size int) Exporter {
 // Export exports records in chunks no larger than c.size.
 func (c chunkExporter) Export(ctx context.Context, records []Record) error {
 	n := len(records)
+	var err error
 	for i, j := 0, min(c.size, n); i < n; i, j = i+c.size, min(j+c.size, n) {
-		if err := c.Exporter.Export(ctx, records[i:j]); err != nil {
-			return err
-		}
+		// Do not abandon the remaining chunks if one fails to export.
+		err = errors.Join(err, c.Exporter.Export(ctx, records[i:j]))
 	}
-	return nil
+	return err
 }
 
 // timeoutExporter wraps an Exporter and ensures any call to Export will have a
